@@ -338,18 +338,20 @@ def run_exit_orders(res, pid, seed, tier, kinds):
     if not ok:
         res.violation("harness-build", "harness/t_exitorder.c no longer compiles against the current tree: " + txt[-1200:]); return None
     stats = collections.Counter(); seen = set()
-    confs = [(na, rof, 3) for na in (0, 1) for rof in (0, 1)] + ([(na, rof, 4) for na in (0, 1) for rof in (0, 1)] if tier == "thorough" else [])
+    # 4th component `partial`: F<i> frees all but the last block of worker i, so an adopted segment keeps a live block that a stale
+    # entry of the abandoned lists would show to mi_abandoned_visit_blocks (seed C09e: the unlink of a MIDDLE element of the OS list)
+    confs = [(na, rof, 3, pt) for na in (0, 1) for rof in (0, 1) for pt in (0, 1)] + ([(na, rof, 4, pt) for na in (0, 1) for rof in (0, 1) for pt in (0, 1)] if tier == "thorough" else [])
     def one(c):
-        rc, out, err = vlib.run_split([exe, str(c[0]), str(c[1]), str(c[2]), str(seed)], timeout=600, env=vlib.clean_env())
+        rc, out, err = vlib.run_split([exe, str(c[0]), str(c[1]), str(c[2]), str(seed), str(c[3])], timeout=600, env=vlib.clean_env())
         return c, rc, out, err
-    with concurrent.futures.ThreadPoolExecutor(max_workers=4) as ex:
+    with concurrent.futures.ThreadPoolExecutor(max_workers=8) as ex:
         for c, rc, out, err in ex.map(one, confs):
             lines = out.splitlines()
-            cfg = "no_arena=%d reclaim_on_free=%d workers=%d" % c
+            cfg = "no_arena=%d reclaim_on_free=%d workers=%d partial=%d" % c
             if rc != 0 or not lines or lines[-1] != "END":
                 last = [l for l in lines if l.startswith("T fail")][-1:] or ["(no failure record)"]
                 res.violation("impl:order-crash", "t_exitorder (%s) exited with %d before finishing: %s %s" % (cfg, rc, last[0][:300], err[-300:]),
-                              witness="t_exitorder %d %d %d %d" % (c[0], c[1], c[2], seed))
+                              witness="t_exitorder %d %d %d %d %d" % (c[0], c[1], c[2], seed, c[3]))
                 continue
             for l in lines:
                 if l.startswith("T sum"):
@@ -360,8 +362,8 @@ def run_exit_orders(res, pid, seed, tier, kinds):
                         seen.add(kind)
                         order = re.search(r'order=(\S+)', l).group(1)
                         res.violation("impl:order-" + kind, "thread exit / adoption order %s (%s): %s" % (order, cfg, l.split(" : ", 1)[-1][:400]),
-                                      witness="t_exitorder %d %d %d %d  (events: E<i> = worker i terminates, F<i> = the main thread frees worker i's blocks) order %s"
-                                              % (c[0], c[1], c[2], seed, order))
+                                      witness="t_exitorder %d %d %d %d %d  (events: E<i> = worker i terminates, F<i> = the main thread frees worker i's blocks -- all but the last one when partial=1) order %s"
+                                              % (c[0], c[1], c[2], seed, c[3], order))
     res.cov["evaluations"] += stats["orders"]; res.cov["traces_validated_against_impl"] += stats["orders"]; res.cov["distinct_nontrivial"] += stats["orders"]
     res.cov.setdefault("input_distribution", {})["exit_orders"] = dict(stats)
     return stats
